@@ -126,7 +126,13 @@ func childMain(spec string) int {
 	childSeed, _ = strconv.ParseInt(os.Getenv("VERIF_C08_SEED"), 10, 64)
 	parts := strings.Split(spec, "|")
 	if parts[0] == "ia" {
-		interactiveInsts()
+		if heavyByName(parts[1]) == nil {
+			if strings.HasPrefix(parts[1], "lp") {
+				interactiveInsts()
+			} else {
+				buildPlan()
+			}
+		}
 		ia := iaRegistry[parts[1]]
 		if ia == nil {
 			fmt.Println("C08CHILD:HARNESS:unknown interactive protocol " + parts[1])
@@ -148,9 +154,8 @@ func childMain(spec string) int {
 		}
 		return 0
 	}
-	buildPlan()
-	if registry[parts[1]] == nil {
-		heavyInsts()
+	if heavyByName(parts[1]) == nil {
+		buildPlan()
 	}
 	n := registry[parts[1]]
 	if n == nil {
@@ -174,18 +179,6 @@ func childMain(spec string) int {
 			fmt.Println("C08CHILD:REJECT:" + oneLine(verr.Error()))
 		default:
 			fmt.Println("C08CHILD:ACCEPT:")
-		}
-	case "zk":
-		m, _ := strconv.Atoi(parts[2])
-		idx, _ := strconv.Atoi(parts[3])
-		acc, st := n.zkChild(m, idx)
-		switch {
-		case strings.HasPrefix(st, "PANIC@"):
-			fmt.Println("C08CHILD:PANIC:" + oneLine(strings.TrimPrefix(st, "PANIC@")))
-		case acc:
-			fmt.Println("C08CHILD:ACCEPT:")
-		default:
-			fmt.Println("C08CHILD:REJECT:" + oneLine(st))
 		}
 	}
 	return 0
@@ -272,7 +265,14 @@ func crashSummary(s string) string {
 	var keep []string
 	for _, l := range strings.Split(s, "\n") {
 		l = strings.TrimSpace(l)
-		if strings.HasPrefix(l, "panic:") || strings.HasPrefix(l, "[signal") || (strings.Contains(l, "bron-crypto") && strings.HasPrefix(l, "/repo")) || strings.HasPrefix(l, "created by") {
+		if strings.HasPrefix(l, "panic:") || (strings.Contains(l, "bron-crypto") && strings.HasPrefix(l, "/repo")) || strings.HasPrefix(l, "created by") {
+			// keep only run-independent text (no goroutine ids, no code offsets)
+			if i := strings.Index(l, " in goroutine"); i >= 0 {
+				l = l[:i]
+			}
+			if i := strings.Index(l, " +0x"); i >= 0 {
+				l = l[:i]
+			}
 			keep = append(keep, l)
 		}
 		if len(keep) >= 9 {
@@ -280,4 +280,44 @@ func crashSummary(s string) string {
 		}
 	}
 	return strings.Join(keep, " | ")
+}
+
+// failure tally by key (printed at the end of the run: the engine itself prints only the first ten per section)
+var (
+	tallyMu sync.Mutex
+	tally   = map[string]int{}
+	tallyEx = map[string]string{}
+)
+
+func failf(x *engine.X, key, format string, a ...any) {
+	x.Failf(key, format, a...)
+	if x.Replay {
+		return
+	}
+	tallyMu.Lock()
+	tally[key]++
+	if _, ok := tallyEx[key]; !ok {
+		m := fmt.Sprintf(format, a...)
+		if i := strings.IndexByte(m, '\n'); i >= 0 {
+			m = m[:i]
+		}
+		tallyEx[key] = m
+	}
+	tallyMu.Unlock()
+}
+
+func printTally(sec *engine.Section) {
+	tallyMu.Lock()
+	defer tallyMu.Unlock()
+	keys := make([]string, 0, len(tally))
+	for k := range tally {
+		keys = append(keys, k)
+	}
+	sort.Strings(keys)
+	for _, k := range keys {
+		fmt.Printf("[C08] failure key %-70s cases=%-5d e.g. %s\n", k, tally[k], oneLine(tallyEx[k]))
+		if sec != nil {
+			sec.Note("failure key %s: %d cases, e.g. %s", k, tally[k], oneLine(tallyEx[k]))
+		}
+	}
 }
